@@ -73,7 +73,8 @@ func checkC15(r *core.Run) {
 			}
 			_ = listT
 			bad := []guard.Atom{guard.Eq(guard.Exact(elemT), "elem(*)")}
-			if ok, w := ck.MustAvoid(call.Block(), bad); ok {
+			notIn, _ := ck.MustPass(call.Block(), []guard.Atom{guard.NotIn(guard.Exact(elemT), "*")})
+			if ok, w := ck.MustAvoid(call.Block(), bad); ok || notIn {
 				r.Discharge("G-distinct", key, r.P.Pos(call.Pos()), "the index is appended only on paths where no comparison with an earlier index was true in the same round")
 			} else {
 				r.Violate("G-distinct", key, r.P.Pos(call.Pos()), "an index equal to an earlier one can be appended: two replicas of an order can be placed on the same provider", w...)
@@ -114,7 +115,7 @@ func checkC15(r *core.Run) {
 					okLoop = true
 				}
 			}
-			if okLoop {
+			if okLoop || notIn {
 				r.Discharge("G-distinct", key2, r.P.Pos(call.Pos()), "a range loop over the index list itself compares every element before the append (no early exit without a match)")
 			} else {
 				r.Violate("G-distinct", key2, r.P.Pos(call.Pos()), "the candidate index is not compared with every earlier index before it is appended")
@@ -204,16 +205,25 @@ func checkRandomSPProvenance(r *core.Run) {
 	// the ignore filter removes every ignored normal node: a loop over the ignore list containing a removal on match
 	key := core.Key("T-provenance", fnName, "ignore filter over all entries")
 	found := false
-	for _, l := range cfgx.Loops(fn) {
-		iff := cfgx.IfOf(l.Header)
-		if iff == nil || !strings.Contains(res.Of(iff.Cond).String(), "builtin.len(#3)") {
-			continue
-		}
-		// inner comparison elem(#3) == node.Creator with a reslice/append on the true edge
-		for b := range l.Body {
-			if i2 := cfgx.IfOf(b); i2 != nil {
-				if p, _, ok := guard.CondPred(res, i2.Cond); ok && p.Kind == "eq" && (strings.Contains(p.A, "elem(#3)") || strings.Contains(p.B, "elem(#3)")) && (strings.HasSuffix(p.A, ".Creator") || strings.HasSuffix(p.B, ".Creator")) {
-					found = true
+	for _, fr := range frames(r, fn) {
+		fres := r.Resolver(fr.Fn)
+		for _, l := range cfgx.Loops(fr.Fn) {
+			iff := cfgx.IfOf(l.Header)
+			if iff == nil || !strings.Contains(fr.T(r, iff.Cond), "builtin.len(#3)") {
+				continue
+			}
+			// inner comparison elem(#3) == node.Creator with a reslice/append on the true edge
+			for b := range l.Body {
+				if i2 := cfgx.IfOf(b); i2 != nil {
+					if p, _, ok := guard.CondPred(fres, i2.Cond); ok && p.Kind == "eq" {
+						pa, pb := p.A, p.B
+						if bo, isBo := i2.Cond.(*ssa.BinOp); isBo && len(fr.Chain) > 0 {
+							pa, pb = fr.T(r, bo.X), fr.T(r, bo.Y)
+						}
+						if (strings.Contains(pa, "elem(#3)") || strings.Contains(pb, "elem(#3)")) && (strings.HasSuffix(pa, ".Creator") || strings.HasSuffix(pb, ".Creator")) {
+							found = true
+						}
+					}
 				}
 			}
 		}
@@ -410,7 +420,7 @@ func ruleElig2(r *core.Run) {
 		sn := "elem(node/keeper.Keeper.GetAllSuperNodes())"
 		pl2 := fGetPledge + "(" + sn + ".Creator)"
 		clauses := []clause{
-			cl("not-in-ignore-list", guard.ForAll("#4", guard.Ne("elem(#4)", sn+".Creator"))),
+			cl("not-in-ignore-list", guard.ForAll("#4", guard.Ne("elem(#4)", sn+".Creator")), guard.NotIn(sn+".Creator", "#4")),
 			cl("pledge-exists", guard.True(pl2+"#1")),
 			cl("free-capacity>=size", guard.Ge("("+pl2+"#0.TotalStorage - "+pl2+"#0.UsedStorage)", "#5")),
 			cl("status-mask", guard.Eq("(#2 & "+sn+".Status)", "#2")),
@@ -437,7 +447,8 @@ func ruleElig2(r *core.Run) {
 			}
 			// the ignore test: a match forbids the return in the same round
 			key := core.Key("G-elig-2", f2, fmt.Sprintf("return node#%d", n), "ignored-node-not-returned")
-			if ok, w := ck.MustAvoid(b, []guard.Atom{guard.Eq("elem(#4)", sn+".Creator")}); ok {
+			inHelper, _ := ck.MustPass(b, []guard.Atom{guard.NotIn(sn+".Creator", "#4")})
+			if ok, w := ck.MustAvoid(b, []guard.Atom{guard.Eq("elem(#4)", sn+".Creator")}); ok || inHelper {
 				r.Discharge("G-elig-2", key, r.P.Pos(ret.Pos()), "no path on which an ignore-list entry equals the candidate reaches the return within the same round")
 			} else {
 				r.Violate("G-elig-2", key, r.P.Pos(ret.Pos()), "a super node found in the ignore list can still be returned", w...)
